@@ -459,3 +459,45 @@ def c14(prop, tier):
                     "a crash is observed from outside: the server code runs in a child process of the harness",
                     "after every request: no goroutine inside a handler or request-scoped cache helper, no descriptor into the cache directory, reserved = 0"])
     return rc
+
+
+@check("C15")
+def c15(prop, tier):
+    t0 = time.time()
+    cov = new_cov()
+    v = Verdict(prop)
+    files = []
+    for cfg, desc in [("MV", "mangling on, HTTP validation on"), ("Mv", "mangling on, validation off"),
+                      ("mV", "mangling off, validation on"), ("mv", "mangling off, validation off")]:
+        r, finals = tlc_final_states("Keyspace.tla", f"Keyspace_{cfg}.cfg")
+        dst = os.path.join(scratch(), f"ks_{cfg}.ndjson")
+        shutil.copy(finals, dst)
+        files.append(dst)
+        add_model(cov, f"Keyspace_{cfg}", r, f"all histories of 3 writes (AC via HTTP/gRPC under 3 instances, CAS) with {desc}: isolation invariants; expected reads per history")
+    args = ["keyspace", "-cases", ",".join(files), "-tier", tier, "-seed", str(seed())]
+    res = run_vh(args, timeout=3600)
+    collect_driver(v, res, {"driver_args": args, "kind": "driver"})
+    cov["evaluations"], cov["distinct_nontrivial"], cov["rule"] = res["cases"], res["nontrivial"], res["rule"]
+    cov["samples"] = res.get("samples", [])[:4]
+    cov["drivers"].append({"driver": "keyspace", "executions": res["cases"], "drive_s": round(res["_wall_s"], 1)})
+    cov["checker_cmd"] = "tlc Keyspace.tla (4 configurations) + vh keyspace"
+    log(f"[conf] keyspace: {res['cases']} executions ({res['nontrivial']} non-trivial), {len(res.get('violations', []))} violations, {res['_wall_s']:.1f}s")
+    if res["cases"] == 0:
+        raise Machinery("C15: nothing executed")
+    rc = v.finish()
+    write_evidence(prop, tier, "model_checking", cov, time.time() - t0, len(v.violations),
+                   CASE_ASSUME + ["instance names come from a catalogue (nested, segments named ac / cas / blobs / uploads, unicode, spaces); names that are not path-clean are excluded as documented",
+                                  "the same 64-hex key is used in all namespaces of a history; the restart projection of the key spaces is covered by C09's populations"])
+    return rc
+
+
+@check("C19")
+def c19(prop, tier):
+    models = [("Config", "Config.tla", "Config.cfg", "required settings plus every single and every pair of 40 further settings (two sample values each): validateConfig's tests = the validity policy; 25 invalid classes", "cfg")]
+    drivers = [("config", ["config", "-cases", "{cfg}", "-tier", "{tier}", "-seed", "{seed}"])]
+    return multi_check(prop, tier, models, drivers,
+                       ["the settings table (flag, environment variable, YAML path, type, sample values) is part of the specification, taken from README / --help, not read from the code under test",
+                        "only explicitly given settings are compared across the three syntaxes (defaults of omitted settings, in particular listener addresses, intentionally differ)",
+                        "the basic configuration is compared (config.get through a verif accessor, config.NewFromYaml); derived objects (TLS config, proxy clients, loggers) are not built",
+                        "azblob settings are not in the table (their YAML section cannot be switched on without tenant id; only naming is covered by C20)"],
+                       "tlc Config.tla + vh config")
